@@ -548,6 +548,87 @@ def it_nna(variant, rng):
             + b"".join(shdr) + b"".join(pats) + b"".join(sdata))
 
 
+MACRO_VARS = "cnvuxyzohmpab"
+
+
+def it_macro(var, rng):
+    """IT module (sample mode) with an embedded MIDI configuration (header flag 0x80, special 0x08) whose
+    parametered macros are filter commands built from the macro variable `var`:
+      SF0 = F0F000<var> (cutoff), SF1 = F0F001<var> (resonance), SF2 = F0F000<var>F0F00140,
+    and whose fixed macros Z80..Z8F set cutoff / resonance constants.  Three sounding channels off centre (left,
+    right, slightly left); Zxx is executed on the note row and again on later rows (the pan of the previous ticks
+    is then known to the macro), S8x / Xxx move the pan in between, SFx selects the active macro."""
+    nchn = 3
+    chpan = [6, 56, 24] + [32 | 0x80] * 61
+    pdata = bytearray()
+    for r in range(64):
+        for c in range(nchn):
+            ev = None
+            ph = (r + 3 * c) % 16
+            if ph == 0:
+                ev = (48 + 5 * c + (r // 16) * 2, 1 + (c + r // 16) % 2, (26, rng.choice([0x00, 0x20, 0x7F, 0x40])))
+            elif ph in (2, 5, 9, 12):
+                ev = (None, None, (26, rng.choice([0x00, 0x10, 0x30, 0x7F, 0x55])))        # Zxx some ticks after the pan was set
+            elif ph == 4:
+                ev = (None, None, rng.choice([(19, 0x80 | rng.randrange(16)), (24, rng.randrange(256))]))   # S8x / Xxx: move the pan
+            elif ph == 7:
+                ev = (None, None, (19, 0xF0 | rng.randrange(3)))                                   # SFx: select the macro
+            elif ph == 14 and rng.random() < 0.5:
+                ev = (None, None, (26, 0x80 | rng.randrange(16)))                                  # fixed macro
+            if ev is None:
+                continue
+            note, ins, fx = ev
+            mask = (1 if note is not None else 0) | (2 if ins is not None else 0) | 8
+            pdata += bytes([(c + 1) | 0x80, mask])
+            if note is not None:
+                pdata.append(note)
+            if ins is not None:
+                pdata.append(ins)
+            pdata += bytes(fx)
+        pdata.append(0)
+    pattern = struct.pack("<HHI", len(pdata), 64, 0) + bytes(pdata)
+    orders = bytes([0, 0, 255])
+    nsmp = 2
+    midi = bytearray((9 + 16 + 128) * 32)
+    v = var.encode()
+    for k, mac in enumerate([b"F0F000" + v, b"F0F001" + v, b"F0F000" + v + b"F0F00140"]):
+        midi[(9 + k) * 32:(9 + k) * 32 + len(mac)] = mac
+    for k in range(16):
+        mac = (b"F0F000%02X" % (0x20 + 6 * k)) if k % 2 == 0 else (b"F0F001%02X" % (8 * k))
+        midi[(9 + 16 + k) * 32:(9 + 16 + k) * 32 + len(mac)] = mac
+    hdr = bytearray(b"IMPM" + ("c14 macro " + var).encode().ljust(26, b"\0") + bytes([4, 16]))
+    hdr += struct.pack("<HHHH", len(orders), 0, nsmp, 1)
+    hdr += struct.pack("<HHHH", 0x0214, 0x0214, 0x01 | 0x08 | 0x80, 0x08)
+    hdr += bytes([128, 48, 4, 125, 128, 0]) + struct.pack("<HII", 0, 0, 0)
+    hdr += bytes(chpan) + bytes([64] * 64)
+    off = 192 + len(orders) + 4 * (nsmp + 1) + len(midi)
+    soff = [off, off + 80]
+    off += 160
+    poff = off
+    off += len(pattern)
+    shdr, sdata = [], []
+    for k in range(nsmp):
+        n = [128, 96][k]
+        d = bytes(((90 if (i % 32) < 11 else -90) + (i * (37 + 4 * k) % 23) - 11) & 0xFF for i in range(n))
+        sh = bytearray(b"IMPS" + b"bright.raw".ljust(12, b"\0") + b"\0" + bytes([64, 1 | 0x10, 64]))
+        sh += b"bright".ljust(26, b"\0") + bytes([1, 0])
+        sh += struct.pack("<IIII", n, 0, n, 8363) + struct.pack("<III", 0, 0, off) + bytes(4)
+        shdr.append(bytes(sh).ljust(80, b"\0"))
+        sdata.append(d)
+        off += n
+    return (bytes(hdr) + orders + struct.pack("<III", soff[0], soff[1], poff) + bytes(midi) + b"".join(shdr) + pattern
+            + b"".join(sdata))
+
+
+def macro_modules(outdir, seed):
+    """one IT module with embedded MIDI macros per macro variable (filter cutoff / resonance taken from it)"""
+    files = []
+    for k, var in enumerate(MACRO_VARS):
+        rng = random.Random(seed * 22801763 + k * 982451653)
+        files.append(("c14macro_%d_%s.it" % (seed, var), it_macro(var, rng)))
+    return _write_set(outdir, files)
+
+
 def _write_set(outdir, files):
     os.makedirs(outdir, exist_ok=True)
     paths = []
